@@ -191,18 +191,61 @@ Fixpoint showT (t:term) : string :=
   | Det kw d => "(T " ++ showKw kw ++ " " ++ showT d ++ ")"
   | Filt f w o b d => "(F " ++ showQc f ++ " " ++ showWn w ++ " " ++ showN o ++ " " ++ b ++ " " ++ showT d ++ ")"
   end.
-Definition showV (v:view) : string :=
-  match v with
-  | Whole t => "W " ++ showT t
-  | Split t r m => "S r" ++ showL showN "," r ++ " m" ++ showL showN "," m ++ " " ++ showT t
-  end.
 Definition showErr (e:perr) : string := match e with TypeErr => "TypeError" | ValueErr => "ValueError" | IndexErr => "IndexError" end.
-Definition showBound (b:list view * Qc) : string := showQc (snd b) ++ "@" ++ showL showV ";" (fst b).
+
+(* Output is kept short (printing strings dominates the evaluation time): a term that is the first dataset's term with only
+   the Init leaf replaced is printed "^k n c"; a view whose term is the dataset's current term is printed with "=" for
+   the term.  Both abbreviations are used only when a boolean structural comparison ([term_eqb], sound by
+   P_prep.term_eqb_eq) says so, otherwise the term is printed in full. *)
+Fixpoint zs_eqb (x y:list Z) : bool :=
+  match x, y with [], [] => true | u :: x', v :: y' => Z.eqb u v && zs_eqb x' y' | _, _ => false end.
+Definition kwval_eqb (a b:kwval) : bool :=
+  match a, b with
+  | VNone, VNone => true | VInt x, VInt y => Z.eqb x y | VBool x, VBool y => Bool.eqb x y | VStr x, VStr y => String.eqb x y
+  | VInts x, VInts y => zs_eqb x y
+  | _, _ => false
+  end.
+Fixpoint kw_eqb (a b:kwargs) : bool :=
+  match a, b with
+  | [], [] => true
+  | (k, v) :: a', (k', v') :: b' => String.eqb k k' && kwval_eqb v v' && kw_eqb a' b'
+  | _, _ => false
+  end.
+Definition wn_eqb (a b:wn) : bool :=
+  match a, b with W1 x, W1 y => Qc_eq_bool x y | W2 x x', W2 y y' => Qc_eq_bool x y && Qc_eq_bool x' y' | _, _ => false end.
+Fixpoint term_eqb (a b:term) : bool :=
+  match a, b with
+  | Init k n c, Init k' n' c' => Nat.eqb k k' && Nat.eqb n n' && Nat.eqb c c'
+  | Dec q kw d, Dec q' kw' d' => Pos.eqb q q' && kw_eqb kw kw' && term_eqb d d'
+  | Det kw d, Det kw' d' => kw_eqb kw kw' && term_eqb d d'
+  | Filt f w o bt d, Filt f' w' o' bt' d' => Qc_eq_bool f f' && wn_eqb w w' && Nat.eqb o o' && String.eqb bt bt' && term_eqb d d'
+  | _, _ => false
+  end.
+Fixpoint tleaf (t:term) : term := match t with Init _ _ _ => t | Dec _ _ d => tleaf d | Det _ d => tleaf d | Filt _ _ _ _ d => tleaf d end.
+Fixpoint reinit (l:term) (t:term) : term :=
+  match t with Init _ _ _ => l | Dec q kw d => Dec q kw (reinit l d) | Det kw d => Det kw (reinit l d) | Filt f w o b d => Filt f w o b (reinit l d) end.
+Definition showT_rel (first:option term) (t:term) : string :=
+  match first, tleaf t with
+  | Some t0, Init k n c => if term_eqb t (reinit (Init k n c) t0) then "^" ++ showN k ++ " " ++ showN n ++ " " ++ showN c else showT t
+  | _, _ => showT t
+  end.
+Definition showCur (c:list term) : string :=
+  match c with [] => "" | t0 :: r => join ";" (showT t0 :: map (showT_rel (Some t0)) r) end.
+Definition showT_cur (c:option term) (t:term) : string :=
+  match c with Some t' => if term_eqb t t' then "=" else showT t | None => showT t end.
+Definition showV (c:option term) (v:view) : string :=
+  match v with
+  | Whole t => "W " ++ showT_cur c t
+  | Split t r m => "S r" ++ showL showN "," r ++ " m" ++ showL showN "," m ++ " " ++ showT_cur c t
+  end.
+Fixpoint showVs (c:list term) (vs:list view) : list string :=
+  match vs with [] => [] | v :: vr => showV (hd_error c) v :: showVs (tl c) vr end.
+Definition showBound (c:list term) (b:list view * Qc) : string := showQc (snd b) ++ "@" ++ join ";" (showVs c (fst b)).
 (* fs|dt|Ndats|Ts|cur|data|number of bindings|last binding *)
 Definition showS (s:state) : string :=
   showQc (fs s) ++ "|" ++ showQc (dt s) ++ "|" ++ showL showN " " (Ndats s) ++ "|" ++ showL showQc " " (Ts s) ++ "|"
-  ++ showL showT ";" (cur s) ++ "|" ++ showL showV ";" (data s) ++ "|" ++ showN (List.length (bound s)) ++ "|"
-  ++ match rev (bound s) with b :: _ => showBound b | [] => "-" end.
+  ++ showCur (cur s) ++ "|" ++ join ";" (showVs (cur s) (data s)) ++ "|" ++ showN (List.length (bound s)) ++ "|"
+  ++ match rev (bound s) with b :: _ => showBound (cur s) b | [] => "-" end.
 Definition showR (r:presult state) : string := match r with POk s => showS s | PErr e => "E:" ++ showErr e end.
 
 (* states after each call of a history (an error ends it) *)
@@ -223,3 +266,9 @@ Definition showFinals (pc sg:bool) (fs0:Qc) (refs:list (list nat)) (shapes:list 
   showL (showFinal pc sg fs0 refs shapes) "#" hs.
 Definition showTraces (pc sg:bool) (fs0:Qc) (refs:list (list nat)) (shapes:list (nat * nat)) (hs:list (list op)) : string :=
   showL (showTrace pc sg fs0 refs shapes) "#" hs.
+(* durations only (used for the second model variant of SingleSetup, whose other components are identical) *)
+Definition showTsR (r:presult state) : string := match r with POk s => showL showQc " " (Ts s) | PErr e => "E:" ++ showErr e end.
+Definition showTsFinals (pc sg:bool) (fs0:Qc) (refs:list (list nat)) (shapes:list (nat * nat)) (hs:list (list op)) : string :=
+  showL (fun ops => showTsR (bindp (setup sg fs0 refs shapes) (fun s0 => run pc sg s0 ops))) "#" hs.
+Definition showTsTraces (pc sg:bool) (fs0:Qc) (refs:list (list nat)) (shapes:list (nat * nat)) (hs:list (list op)) : string :=
+  showL (fun ops => let r0 := setup sg fs0 refs shapes in showL showTsR "~" (r0 :: trace pc sg r0 ops)) "#" hs.
